@@ -188,6 +188,23 @@ def rule_node_events(ctx: Ctx, out: Collector) -> None:
             return False
 
         res = s.run([(g.entry, 'q0', frozenset())], None, goal, edge_step=estep)
+        if res is None:
+            # cancellation: once a cancellation propagates, no further lifecycle event is emitted and nothing is published
+            from ..paths import ALL_LABELS
+            s2 = Search(ctx.p, g, ALL_LABELS)
+
+            def estep2(prev, lab, e, state, facts):
+                if prev is not None and lab == 'exc' and prev.id in collab:
+                    return None
+                if state == 'qx':
+                    if sym_of.get(e.id) in ('S', 'B', 'D', 'C0', 'Ce', 'P'):
+                        return f'BAD:{sym_of[e.id]} after the execution was cancelled'
+                    return 'qx'
+                if lab == 'cancel':
+                    return 'qx'
+                return state if not str(state).startswith('BAD') else state
+
+            res = s2.run([(g.entry, 'q', frozenset())], None, lambda e, st, f: isinstance(st, str) and st.startswith('BAD'), edge_step=estep2)
         cons = f'{g.root.module.name}::{g.root.qualname}::S ((B|D) Ce)* (B|D) D? (C0 P | Ce P?)'
         if res is None:
             out.ok('EV-2', cons, g.evs[g.entry].where(), 'every path spells a word of the node-event language', alphabet=sorted(set(sym_of.values())))
